@@ -89,19 +89,23 @@ enum Exp {
 }
 
 fn f_floor(x: f32) -> f32 {
-    // independent floor: via truncation, valid for |x| < 2^23, identity above (already integral)
+    // independent floor: via truncation, valid for |x| < 2^23, identity above (already integral).
+    // IEEE 754: a zero result carries the sign of the operand (floor(-0.0) = -0.0).
     if x != x || x.abs() >= 8388608.0 {
         return x;
     }
     let t = (x as i32) as f32;
-    if t > x { t - 1.0 } else { t }
+    let r = if t > x { t - 1.0 } else { t };
+    if r == 0.0 { 0.0f32.copysign(x) } else { r }
 }
 fn f_ceil(x: f32) -> f32 {
+    // IEEE 754: a zero result carries the sign of the operand (ceil(-0.5) = -0.0).
     if x != x || x.abs() >= 8388608.0 {
         return x;
     }
     let t = (x as i32) as f32;
-    if t < x { t + 1.0 } else { t }
+    let r = if t < x { t + 1.0 } else { t };
+    if r == 0.0 { 0.0f32.copysign(x) } else { r }
 }
 
 fn reference(op: Op, a: Sc, b: Option<Sc>, narrow: bool) -> Exp {
